@@ -94,7 +94,7 @@ EvSelect ==
      IN /\ ts' = [ts EXCEPT ![t].sel = E.sel]
         /\ conf' = (conf /\ ok) /\ div' = Note(ok, <<"Select", t, "got", E.sel, "expected", ExpSel(t, E.cursor)>>)
         \* C03: exactly one of the candidate sets is used
-        /\ bad' = bad \cup Flag(S \subseteq A \/ S \subseteq B, <<"C03", l, "selection mixes primaries and alternatives", t>>)
+        /\ bad' = bad \cup Flag(OneCandidate(t, S), <<"C03", l, "an allocation with alternatives books more than one of its candidates", <<t, E.sel>>>>)
   /\ UNCHANGED <<used, usage, lim, lsec, cur>>
 
 EvBook ==
